@@ -276,8 +276,11 @@ def execute(case):
                       'fault-free append never opened _metadata')
             res['digest'] = 'nometa'
             return res
+        # data-file calls: part files and their directories (a backup copy
+        # of the summary or its removal is not one)
         last_data = max([e[3]['k'] for e in trace
-                         if not e[2].endswith('_metadata')] or [0])
+                         if e[1] == 'mkdirs'
+                         or e[2].endswith(('.parquet', '.parq'))] or [0])
         if last_data > m:
             # "parts first, summary last": once the summary is being
             # rewritten while part files are still to come, an append that is
